@@ -625,8 +625,8 @@ func (c *fctx) rangeStmt(x *ast.RangeStmt, en *env, lc *lctx, next kont) string 
 		overInt = true
 	} else if t.exprType(x.X).k != kSlice {
 		t.fail(x, "range over %s", tv.Type)
-	} else if t.exprType(x.X).str { // [ext:T20] ranging over a string decodes runes
-		t.fail(x, "range over a string")
+	} else if t.exprType(x.X).str && !(x.Value == nil && c.asciiConst20(x.X)) { // [ext:T20] ranging over a string decodes runes
+		t.fail(x, "range over a string (only the index form over a constant ASCII string is supported)")
 	}
 	arrLen := int64(-1) // [ext:T20] ranging over an array: the bound is the array length of the type
 	if !overInt {
